@@ -1496,6 +1496,16 @@ def shrink(prop: str, spec: dict, ops: list[dict], seed: int, extra: dict, sig: 
 
     if extra.get("seq") and reproduces(prop, spec, ops, seed, {k: v for k, v in extra.items() if k != "seq"}, sig):
         extra.pop("seq")  # the failure does not need the second phase
+    if prop == "C15":  # one selection per phase first: makes every later attempt cheaper
+        for phase in ((2, 1) if extra.get("seq") else (1,)):
+            sels = _get_sels(extra, phase)
+            if not sels:
+                continue
+            for k, sl in [(k, list(x)) for k, x in sels]:
+                e2 = _with_sels(extra, phase, [(k, sl)])
+                if left() and reproduces(prop, spec, ops, seed, e2, sig):
+                    extra = e2
+                    break
     changed = True
     while changed and left():
         changed = False
@@ -1516,16 +1526,8 @@ def shrink(prop: str, spec: dict, ops: list[dict], seed: int, extra: dict, sig: 
                 break
     if prop == "C15":
         for phase in ((2, 1) if extra.get("seq") else (1,)):
-            sels = _get_sels(extra, phase)
-            if not sels:
-                continue
-            for k, sl in [(k, list(x)) for k, x in sels]:  # one selection per phase is enough
-                e2 = _with_sels(extra, phase, [(k, sl)])
-                if left() and reproduces(prop, spec, ops, seed, e2, sig):
-                    extra = e2
-                    break
             changed = True
-            while changed and left() and len(_get_sels(extra, phase)) == 1:
+            while changed and left() and len(_get_sels(extra, phase) or []) == 1:
                 changed = False
                 k, sl = _get_sels(extra, phase)[0]
                 for x in list(sl):
@@ -1731,7 +1733,7 @@ def _shard(args) -> Result:
     return res
 
 
-BUDGET = {"quick": {"C14": 272, "C15": 144, "C16": 240}, "thorough": {"C14": 3200, "C15": 1200, "C16": 3200}}
+BUDGET = {"quick": {"C14": 272, "C15": 128, "C16": 240}, "thorough": {"C14": 3200, "C15": 1200, "C16": 3200}}
 
 
 def run(prop: str, tier: str, seed: int, intensify: bool = False) -> Result:
